@@ -51,7 +51,13 @@ def split_case(draw):
             # site-dependent components may carry a different number of interaction terms on every bond
             'bond_ranks': None if hom or draw(st.booleans()) else [draw(st.sampled_from([1, 2, 3])) for _ in range(d - 1)],
             'update_in_place': draw(st.sampled_from([False, False, True])),
-            'weak_bond': None if hom else draw(st.sampled_from([None, None, 0, 1, 2, 3]))}
+            'weak_bond': None if hom else draw(st.sampled_from([None, None, 0, 1, 2, 3])),
+            # the state's dtype need not be that of the components: a complex state under real components and the other way round
+            'state_cplx': draw(st.sampled_from([None, None, True, False])) if klass != 'stochastic' else None}
+
+
+def state_cplx(c):
+    return c['cplx'] if c.get('state_cplx') is None else c['state_cplx']
 
 
 def components(c, rng):
@@ -193,7 +199,7 @@ def body_structure(c):
     args = lib_args(c, Sl, Ll, Ml, scale)
     r = [1] + [2] * (d - 1) + [1]
     pos = c['klass'] == 'stochastic'
-    x0 = TT([build.rand_array(rng, (r[i], dims[i], 1, r[i + 1]), c['cplx'], 'nonneg' if pos else 'normal') for i in range(d)])
+    x0 = TT([build.rand_array(rng, (r[i], dims[i], 1, r[i + 1]), state_cplx(c), 'nonneg' if pos else 'normal') for i in range(d)])
     if not pos:
         x0 = (1.0 / np.linalg.norm(dense.contract(x0.cores))) * x0
     if c.get('x_scale_exp', 0):
@@ -255,6 +261,8 @@ def body_structure(c):
         lab.add('weak_bond')
     if c['cplx']:
         lab.add('complex')
+    if state_cplx(c) != c['cplx']:
+        lab.add('state_dtype_differs_from_components')
     if d % 2 == 0:
         lab.add('even_length')
     if c['two_d'] and c['rank'] == 1:
@@ -287,7 +295,7 @@ def body_trunc(c):
     args = lib_args(c, Sl, Ll, Ml, c['hnorm'] / nrm)
     r = [1] + [2] * (d - 1) + [1]
     pos = c['klass'] == 'stochastic'
-    x0 = TT([build.rand_array(rng, (r[i], dims[i], 1, r[i + 1]), c['cplx'], 'nonneg' if pos else 'normal') for i in range(d)])
+    x0 = TT([build.rand_array(rng, (r[i], dims[i], 1, r[i + 1]), state_cplx(c), 'nonneg' if pos else 'normal') for i in range(d)])
     f = {'lie': ode.lie_splitting, 'strang': ode.strang_splitting, 'yoshida': ode.yoshida_splitting, 'kahan_li': ode.kahan_li_splitting}[c['scheme']]
     a = tuple([x.copy() for x in arg] if isinstance(arg, list) else arg.copy() for arg in args)
     p = c['normalize']
@@ -326,7 +334,7 @@ def body_order(c):
     nrm = max(np.linalg.norm(A, 2), 1e-12)
     args = lib_args(c, Sl, Ll, Ml, 1.0)
     r = [1] + [2] * (d - 1) + [1]
-    x0 = TT([build.rand_array(rng, (r[i], dims[i], 1, r[i + 1]), c['cplx']) for i in range(d)])
+    x0 = TT([build.rand_array(rng, (r[i], dims[i], 1, r[i + 1]), state_cplx(c)) for i in range(d)])
     x0 = (1.0 / np.linalg.norm(dense.contract(x0.cores))) * x0
     v0 = dense.matrix(x0.cores).reshape(-1).astype(complex)
     T = 2.0 / nrm
